@@ -41,6 +41,23 @@ def tracked(name):
     return name.split('.')[0] in TRACKED
 
 
+MUTATORS = {'warnings.filterwarnings', 'warnings.simplefilter', 'warnings.resetwarnings', 'warnings.warn', 'sys.setrecursionlimit', 'sys.setswitchinterval',
+            'sys.settrace', 'sys.setprofile', 'sys.set_int_max_str_digits', 'os.chdir', 'os.putenv', 'os.unsetenv', 'signal.signal', 'locale.setlocale',
+            'logging.basicConfig', 'logging.disable', 'random.seed', 'print', 'sys.stdout.write', 'sys.stderr.write', 'decimal.setcontext',
+            'threading.Thread', 'atexit.register', 'sys.path.insert', 'sys.path.append', 'sys.meta_path.insert', 'sys.meta_path.append'}
+
+
+def _dotted(f):
+    parts = []
+    while isinstance(f, ast.Attribute):
+        parts.append(f.attr)
+        f = f.value
+    if isinstance(f, ast.Name):
+        parts.append(f.id)
+        return '.'.join(reversed(parts))
+    return ''
+
+
 class Extractor:
     def __init__(self, modname, path, is_pkg, all_modules):
         self.mod = modname
@@ -105,6 +122,10 @@ class Extractor:
                             break
             if isinstance(n, ast.Call):
                 f = n.func
+                dotted = _dotted(f)
+                if dotted in MUTATORS and not getattr(self, '_reach_depth', 0):      # (only statements of the module body itself: guarded debug prints in reached functions are not import-time effects)
+                    # an import-time call that changes (or writes to) process-wide state: "no side effect other than defining the package"
+                    self.step('ambient', '', dotted, catch)
                 if (isinstance(f, ast.Name) and f.id in ('hasattr', 'getattr') and len(n.args) >= 2 and
                         isinstance(n.args[0], ast.Name) and n.args[0].id in self.aliases and
                         isinstance(n.args[1], ast.Constant) and isinstance(n.args[1].value, str)):
@@ -136,6 +157,13 @@ class Extractor:
         if name in self.reached or name not in self.funcs:
             return
         self.reached.add(name)
+        self._reach_depth = getattr(self, '_reach_depth', 0) + 1
+        try:
+            self._reach_bodies(name, catch)
+        finally:
+            self._reach_depth -= 1
+
+    def _reach_bodies(self, name, catch):
         for fn in self.funcs[name]:
             for st in fn.body:
                 for n in ast.walk(st):
@@ -321,9 +349,10 @@ BodyDef == %s
 SubMap == %s
 SubmoduleDef(m, a) == IF <<m, a>> \\in DOMAIN SubMap THEN SubMap[<<m, a>>] ELSE ""
 ScriptSetDef == %s
+OwnModulesDef == { %s }
 Emit == ~Finished \\/ PrintT(ToJson([script |-> script, err |-> err, soft |-> soft, events |-> events]))
 ====
-''' % (', '.join('"%s"' % n for n in names), body, submap, ss)
+''' % (', '.join('"%s"' % n for n in names), body, submap, ss, ', '.join('"%s"' % n for n in names if n.split('.')[0] == 'soupsieve'))
 
 
 AMBIENT = r'''
